@@ -87,7 +87,7 @@ def intersection(in_samples_1, in_samples_2, method):
         if current_in_sample_1[0] < prev_in_sample_2[0]:
             in_samples_1.pop(0)
             prev_in_sample_1 = current_in_sample_1
-            last = float('nan')
+            last = list()
         # Case 2: input interval 1 meets input interval 2
         # [ interval 1 ]
         #              [ interval 2 ]
